@@ -94,7 +94,10 @@ def build_finite(spec, SI):
                 covering.append(MPS.from_product_state(ls, [v.reshape(-1)], dtype=dtype, permute=False, unit_cell_width=1))
             else:
                 a = npc.Array.from_ndarray(v, [s.leg for s in ls], labels=['p%d' % i for i in range(len(g))])
-                covering.append(MPS.from_full(ls, a, unit_cell_width=len(g)))
+                loc = MPS.from_full(ls, a, unit_cell_width=len(g))
+                if b.get('local_prep') == 'canon':
+                    loc.canonical_form()
+                covering.append(loc)
         return MPS.from_product_mps_covering(covering, [tuple(g) for g in b['groups']], bc='finite', unit_cell_width=L)
     raise ValueError(m)
 
@@ -157,6 +160,14 @@ def observe(psi, A, key, want):
         if s is not None:
             A['%s_S%d' % (key, i)] = np.asarray(s.to_ndarray() if hasattr(s, 'to_ndarray') else s)
     o['nS'] = len(psi._S)
+    if psi.bc == 'segment':
+        # recorded basis changes of the outer virtual legs: U_L[vL original, vR current], V_R[vL current, vR original]
+        U, V = getattr(psi, 'segment_boundaries', (None, None))
+        o['seg_bound'] = [U is not None, V is not None]
+        if U is not None:
+            A[key + '_UL'] = U.transpose(['vL', 'vR']).to_ndarray()
+        if V is not None:
+            A[key + '_VR'] = V.transpose(['vL', 'vR']).to_ndarray()
     canonical = all(f is not None for f in psi.form)
     if psi.bc == 'finite' and want.get('full', True):
         try:
@@ -181,6 +192,13 @@ def observe(psi, A, key, want):
             for k, s in enumerate(spec):
                 A['%s_spec%d' % (key, k)] = np.asarray(s)
             o['nspec'] = len(spec)
+            if want.get('spec_by_charge', True) and psi.chinfo.qnumber > 0:
+                # per bond: [[charge, number of values], ...] in block order; the values concatenated in A
+                rows = []
+                for k, bond in enumerate(psi.entanglement_spectrum(by_charge=True)):
+                    rows.append([[[int(x) for x in q], int(len(v))] for q, v in bond])
+                    A['%s_specq%d' % (key, k)] = np.concatenate([np.asarray(v, dtype=float).reshape(-1) for q, v in bond] + [np.zeros(0)])
+                o['spec_q'] = rows
             o['norm_test'] = float(np.max(psi.norm_test()))
         except Exception as e:
             o['ent_error'] = '%s: %s' % (type(e).__name__, str(e)[:200])
@@ -220,6 +238,21 @@ def do_op(psi, op, A, key, SI):
         if c.imag == 0:
             c = c.real
         psi.set_B(op['i'], B * c, f)
+    elif t == 'set_B_perturbed':
+        # replace a tensor by a generic tensor nearby (same legs and charges): B -> B + eps |B| N/|N|, same label
+        f = form_arg(op['form'])
+        B = psi.get_B(op['i'], f, copy=True)
+        rs = np.random.RandomState(op['seed'])
+        if op.get('cplx'):
+            fct = lambda size: rs.normal(size=size) + 1.j * rs.normal(size=size)
+        else:
+            fct = lambda size: rs.normal(size=size)
+        N = npc.Array.from_func(fct, B.legs, dtype=np.complex128 if op.get('cplx') else np.float64, qtotal=B.qtotal,
+                                labels=B.get_leg_labels())
+        nn = npc.norm(N)
+        if nn > 0:
+            B = B + N * (op['eps'] * npc.norm(B) / nn)
+        psi.set_B(op['i'], B, f)
     elif t == 'set_svd_theta':
         th = psi.get_theta(op['i'], 2).combine_legs([['vL', 'p0'], ['p1', 'vR']], qconj=[+1, -1])
         psi.set_svd_theta(op['i'], th, trunc_par={'chi_max': 64, 'svd_min': 1.e-10})
@@ -316,12 +349,26 @@ def _run_case(case, A, key, SI):
         return res
     want = case.get('want', {})
     res['obs'].append(observe(psi, A, '%s_0' % key, want))
+    if want.get('seg_env') and case['state']['bc'] == 'segment':
+        try:
+            segment_env(case['state'], A, key, SI)
+        except Exception as e:
+            res['env_error'] = '%s: %s' % (type(e).__name__, str(e)[:300])
     for k, op in enumerate(case.get('ops', [])):
+        before = psi.copy() if op.get('overlap') else None
         try:
             psi, ex = do_op(psi, op, A, '%s_%d' % (key, k + 1), SI)
         except Exception as e:
             res['op_error'] = {'step': k, 'type': type(e).__name__, 'msg': str(e)[:300] + ' ... ' + str(e)[-200:], 'tb': traceback.format_exc()[-800:]}
             break
+        if before is not None:
+            # tenpy's own overlaps between the state before (a copy) and after the operation
+            try:
+                ex['ov_ba'] = cnum(before.overlap(psi))
+                ex['ov_bb'] = cnum(before.overlap(before.copy()))
+                ex['ov_aa'] = cnum(psi.overlap(psi.copy()))
+            except Exception as e:
+                ex['ov_error'] = '%s: %s' % (type(e).__name__, str(e)[:300])
         res['extra'].append(ex)
         w = dict(want)
         if 'rdm_after' in op:
@@ -331,6 +378,28 @@ def _run_case(case, A, key, SI):
         else:
             res['obs'].append(None)
     return res
+
+
+def segment_env(spec, A, key, SI):
+    """orthonormal Schmidt states of the parent left / right of the segment, dense: envL[(p_0..p_first-1), vR],
+    envR[vL, (p_last+1..p_L-1)], from the parent's 'A' tensors left and 'B' tensors right of the segment"""
+    import tenpy.linalg.np_conserved as npc
+    parent = build(spec['parent'], SI)
+    first, last = spec['segment']
+    env = None
+    for i in range(first):
+        B = parent.get_B(i, 'A').replace_label('p', 'p%d' % i)
+        env = B if env is None else npc.tensordot(env, B, axes=['vR', 'vL'])
+    if env is not None:
+        env = env.transpose(['vL'] + ['p%d' % i for i in range(first)] + ['vR']).to_ndarray()
+        A[key + '_envL'] = env.reshape(-1, env.shape[-1])
+    env = None
+    for i in range(last + 1, parent.L):
+        B = parent.get_B(i, 'B').replace_label('p', 'p%d' % i)
+        env = B if env is None else npc.tensordot(env, B, axes=['vR', 'vL'])
+    if env is not None:
+        env = env.transpose(['vL'] + ['p%d' % i for i in range(last + 1, parent.L)] + ['vR']).to_ndarray()
+        A[key + '_envR'] = env.reshape(env.shape[0], -1)
 
 
 def index_probe(cases):
